@@ -19,6 +19,7 @@ pub mod spec;
 pub mod shim;
 
 pub mod h_attack;
+pub mod h_fen;
 pub mod h_filter;
 pub mod h_k;
 pub mod h_push;
